@@ -94,7 +94,7 @@ def _gen(rng, tiny=True):
 def _shrink(case):
     ops = list(case["ops"])
     i = len(ops) - 1
-    while i >= 0:
+    while i >= 0 and not core.search_expired():
         cand = dict(case, ops=ops[:i] + ops[i + 1 :])
         if cand["ops"] and _check(cand):
             ops = cand["ops"]
@@ -109,6 +109,8 @@ def run(tier, seed, deep, hints):
         n *= 4
     findings, evals, distinct, sample, seen = [], 0, set(), None, set()
     for i in range(n):
+        if core.search_expired():
+            break
         case = _gen(rng, tiny=(i % 6 != 5))
         evals += 1
         distinct.add(repr(case["ops"]))
